@@ -312,6 +312,17 @@ def run(case):
                         fac = 2 * np.pi * mesh.points[p, 1] if axisym else 1.0
                         ref[nd * p:nd * p + nd] = V[k] * fac
                     c.close(f"points={pts}/rowwise={vals.ndim == 2}/axisymmetric={axisym}", "point load vector = its values at its dofs, zero elsewhere", r, ref, np.abs(ref).max())
+                    # update histories (a Step ramp calls update() in every substep): one and two updates, assembled (with and
+                    # without the field) after each; the vector follows the LAST values, scaled as at creation
+                    for useq in ((2.0,), (0.0, -1.5), (3.0, 3.0)):
+                        load2 = fem.PointLoad(field, pts, values=vals, axisymmetric=axisym)
+                        load2.assemble.vector(field)
+                        for fac_ in useq:
+                            load2.update(vals * fac_)
+                            c.trans += 1
+                        for call in ("vector(field)", "vector()"):
+                            r2 = (load2.assemble.vector(field) if call == "vector(field)" else load2.assemble.vector()).toarray()[:, 0]
+                            c.close(f"points={pts}/rowwise={vals.ndim == 2}/axisymmetric={axisym}/updates={useq}/{call}", "point load vector after update(): the last values (x 2 pi r if axisymmetric) at its dofs", r2, ref * useq[-1], max(np.abs(ref).max() * max(abs(useq[-1]), 1.0), 1e-12))
         return c.result(dict(case=case["key"], unknowns=int(N)))
     if kind == "constraints":
         mk, fk = case["mesh"], case["fk"]
